@@ -684,3 +684,92 @@ func runC08_10(c *core.Ctx) {
 		})
 	}
 }
+
+func init() {
+	register(&core.Rule{ID: "C08.11", Prop: "C08", MinSites: 1,
+		Desc: "the datagram goes to a connection of this descriptor: in readUDP the conn handed to OnTraffic is, on every path, either a newUDPConn built for the descriptor that was read with the Recvfrom peer address (listener) or the registry's conn of that descriptor (getConn(fd), connected client) – never an unassigned variable or another descriptor's conn",
+		Run:  runC08_11})
+}
+
+func runC08_11(c *core.Ctx) {
+	v := vocabOf(c)
+	f := getFn(c, "", "eventloop.readUDP")
+	if v == nil || f == nil {
+		return
+	}
+	fd := f.param(0)
+	// the peer address bound by Recvfrom
+	var peer types.Object
+	ast.Inspect(f.Decl.Body, func(n ast.Node) bool {
+		if as, ok := n.(*ast.AssignStmt); ok && len(as.Rhs) == 1 && len(as.Lhs) == 3 {
+			if call, ok := ast.Unparen(as.Rhs[0]).(*ast.CallExpr); ok && flow.IsPkgFunc(f.Info, call, unixPkg, "Recvfrom") {
+				peer = flow.ObjOf(f.Info, as.Lhs[1])
+			}
+		}
+		return true
+	})
+	k := 0
+	for _, call := range callsIn(f.Decl.Body, false) {
+		if v.isConnCallback(f.Info, call) != "OnTraffic" || len(call.Args) != 1 {
+			continue
+		}
+		k++
+		who, _ := flow.ObjOf(f.Info, call.Args[0]).(*types.Var)
+		if who == nil {
+			c.Undecided(f.Name, "receiver of the datagram #"+itoa(k), call.Pos(), "the argument of OnTraffic is not a variable")
+			continue
+		}
+		const fBound = 1
+		why := ""
+		p := &flow.Problem{Must: true}
+		p.Node = func(b *flow.Block, i int, n ast.Node, in uint64) uint64 {
+			as, ok := n.(*ast.AssignStmt)
+			if !ok {
+				return in
+			}
+			for j, l := range as.Lhs {
+				if flow.ObjOf(f.Info, l) != types.Object(who) || j >= len(as.Rhs) {
+					continue
+				}
+				in &^= fBound
+				rc, ok := ast.Unparen(as.Rhs[j]).(*ast.CallExpr)
+				if !ok {
+					continue
+				}
+				cf := flow.CalleeFunc(f.Info, rc)
+				switch {
+				case cf != nil && cf.Name() == "newUDPConn" && len(rc.Args) >= 4:
+					if flow.ObjOf(f.Info, rc.Args[0]) == types.Object(fd) && (peer == nil || flow.ObjOf(f.Info, rc.Args[3]) == peer) {
+						in |= fBound
+					} else {
+						why = "a newUDPConn that is not built from the descriptor that was read and the peer address Recvfrom returned"
+					}
+				case flow.IsCall(f.Info, rc, v.getConn) && len(rc.Args) == 1:
+					if flow.ObjOf(f.Info, rc.Args[0]) == types.Object(fd) {
+						in |= fBound
+					} else {
+						why = "the registry's conn of another descriptor"
+					}
+				}
+			}
+			return in
+		}
+		sol := f.Graph().Solve(p)
+		bound := true
+		sol.Walk(func(b *flow.Block, i int, n ast.Node, before uint64) {
+			for _, cc := range flow.Calls(n) {
+				if cc == call && before&fBound == 0 {
+					bound = false
+				}
+			}
+		})
+		if why == "" {
+			why = "a variable that is not assigned on every path"
+		}
+		c.Check(bound, f.Name, "receiver of the datagram #"+itoa(k), call.Pos(), "newUDPConn(fd, …, sa) for a listener, getConn(fd) for a connected client",
+			"OnTraffic can be called on "+why+": the datagram is delivered to no connection (nil dereference) or to the wrong one")
+	}
+	if k == 0 {
+		c.Violate(f.Name, "receiver of the datagram", f.Decl.Pos(), "readUDP no longer calls OnTraffic")
+	}
+}
